@@ -282,10 +282,14 @@ def openFollowH (env : Env) (h : ProcH) (base : Base) (subpath : Bytes) (oflags 
   let oflags := if (Path.stripTrailingSlash subpath).2 then oflags ||| O_DIRECTORY else oflags
   let subpath := (Path.stripTrailingSlash subpath).1
   if hasAny oflags (O_CREAT ||| O_EXCL) || hasAll oflags O_TMPFILE then throw .invalidArgument else do
-  let isLink ← M.isOk (readlinkH env h base subpath)
-  if !isLink then
-    openH env retryFuel h base subpath oflags
-  else
+  -- only "not a symlink" (`EINVAL`, or `ENOENT` for the empty path of a non-symlink) and "no such
+  -- file" make the no-follow open the right thing; any other failure of the probe is the answer
+  -- (finding F22, repaired)
+  match ← M.try' (readlinkH env h base subpath) with
+  | .error e =>
+    if e = .os EINVAL ∨ e = .os ENOENT then openH env retryFuel h base subpath oflags
+    else throw e
+  | .ok _ =>
     let (parent, trailing) ← (Path.pathSplit subpath : Except Err _)
     match trailing with
     | none => throw .invalidArgument
